@@ -391,6 +391,17 @@ def oracle(events, line):
         elif f[0] == "F":
             if "F" in obs and int(f[1]) < len(calls):
                 calls[int(f[1])]["fired"] = True
+        # a message from the peer that carries the serial of a call which is still waiting (exists, not completed, not
+        # cancelled) must complete that call: it must never be handed on to the filters
+        for o in obs:
+            mf = re.match(r"f([res])(\d+)\.(\d+)$", o)
+            if mf:
+                for ci, c in enumerate(calls):
+                    if c["serial"] == int(mf.group(2)) and not c["completed"] and not c["cancelled"] and not (f[0] == "S" and ci == len(calls) - 1):
+                        c["lost_reply"] = o[1:]
+                        bad.append(("violation", "the peer's message %s carries the serial of call %d, which was still waiting for its reply "
+                                    "(not completed, not cancelled), yet event %d (%s) handed it to the filters instead of completing the call%s" % (
+                                        o[1:], ci, idx, ev, "; the connection had already closed" if disc else "")))
         if len(st) != len(calls):
             bad.append(("violation", "call count mismatch at event %d" % idx))
             return bad
@@ -438,6 +449,9 @@ def oracle(events, line):
                 if got[0] == "N" and c.get("bt") and not c.get("bt_expired") and not c["fired"] and not c["cancelled"] and c.get("bt_conn"):
                     bad.append(("early-timeout", "call %s (timeout %s) was completed by a blocking wait with the timeout error although at no reading "
                                 "of the clock had its timeout expired" % (f[1], c["ms"])))
+                if got[0] in "NX" and c.get("lost_reply"):
+                    bad.append(("violation", "call %s completed with the local error %s although its reply %s had been read by the connection "
+                                "(and was handed to the filters)" % (f[1], got, c["lost_reply"])))
                 if got[0] in "NX":
                     if c["expect_peer"]:
                         bad.append(("violation", "call %s (serial %d, timeout %s) was blocked on while its reply arrived on an open connection, "
@@ -460,7 +474,9 @@ def oracle(events, line):
     for i, c in enumerate(calls):
         if c["cancelled"] or c["completed"]:
             continue
-        if not connected:
+        if c.get("lost_reply"):
+            bad.append(("violation", "call %d (serial %d) never completed although its reply %s had been read by the connection" % (i, c["serial"], c["lost_reply"])))
+        elif not connected:
             bad.append(("strand", "call %d (serial %d) was outstanding when the connection closed and never completed" % (i, c["serial"])))
         elif c["fired"]:
             bad.append(("violation", "call %d: its timeout fired but it never completed" % i))
